@@ -296,11 +296,11 @@ pub fn run_for(ctx: &Ctx, pid: &'static str, subs: &[DefaultTimeRules]) {
       jobs.push(Box::new(move || ctx.enumerate(s, grid(pid, s.proto).into_iter(), false)));
     }
     let n = match s.proto {
-      Proto::V4L => ctx.n(6000, 120_000),
-      p if p.is_local() => ctx.n(1000, 20_000),
-      Proto::V2P | Proto::V4P => ctx.n(600, 12_000),
-      Proto::V1P => ctx.n(250, 5_000),
-      _ => ctx.n(80, 1_600),
+      Proto::V4L => ctx.n(30_000, 300_000),
+      p if p.is_local() => ctx.n(5000, 50_000),
+      Proto::V2P | Proto::V4P => ctx.n(3000, 30_000),
+      Proto::V1P => ctx.n(1000, 10_000),
+      _ => ctx.n(300, 3_000),
     };
     jobs.push(Box::new(move || ctx.prop(s, case(pid, s.proto), n)));
   }
